@@ -188,6 +188,21 @@ theorem eq_exact (a b : Value) (ha : scalar a = true) : eqV a b = true ↔ paylo
 theorem cmp_zero_exact (a b : Value) (ha : scalar a = true) : cmpV a b = 0 ↔ payloadEq a b := by
   rw [cmpV_zero_iff_eqV]; exact eqV_iff_payloadEq a b ha
 
+/-- a text is any byte sequence (a Go string need not be well-formed UTF-8): `CompareTo` is 0, and
+    `Equals` holds, exactly when the **bytes** are the same — there is no decoding, replacement
+    character, normal form or case folding between the payload and the comparison.  (Harness:
+    `textPools`, `textStage` — texts that differ only inside ill-formed parts or only up to a
+    canonicalisation, bare and inside containers.) -/
+theorem text_exact (x y : Bytes) :
+    (cmpV (.text x) (.text y) = 0 ↔ x = y) ∧ (eqV (.text x) (.text y) = true ↔ x = y) :=
+  ⟨by simpa [payloadEq] using cmp_zero_exact (.text x) (.text y) rfl,
+   by simpa [payloadEq] using eq_exact (.text x) (.text y) rfl⟩
+
+/-- ill-formed bytes are told apart, also from U+FFFD and through containers -/
+example : cmpV (.text [97, 254]) (.text [97, 255]) ≠ 0 ∧ cmpV (.text [255]) (.text [239, 191, 189]) ≠ 0 ∧
+    cmpV (.list [.text [195]]) (.list [.text [194]]) ≠ 0 ∧
+    cmpV (.map [([107], .text [128])]) (.map [([107], .text [191])]) ≠ 0 := by decide +kernel
+
 /-- transitivity of `Equals` for the whole value type, containers included (structural
     induction), assuming only that the float **arrays** of the *middle* value hold no NaN; float
     and double scalars and summary sums may be NaN anywhere (a NaN equals nothing, which is
